@@ -4,6 +4,7 @@ package c02
 
 import (
 	"fmt"
+	"io"
 	"math"
 	"os"
 	"path/filepath"
@@ -25,6 +26,35 @@ type Case struct {
 	Paths    []int    // files mode: index of the text each path refers to (duplicates allowed)
 	Labels   []string // files mode: label for path i ("" = none)
 	Preview  string   // first text, for the human reader only
+	// FailAfter[i] > 0: in reset mode, input i is delivered by a reader that
+	// returns an I/O error after that many bytes (or, if -1, contains a line of
+	// 70000 bytes, beyond the scanner's limit). The next input must read normally.
+	FailAfter []int `json:",omitempty"`
+}
+
+type failingReader struct {
+	data []byte
+	n    int
+}
+
+func (f *failingReader) Read(p []byte) (int, error) {
+	if f.n <= 0 {
+		return 0, fmt.Errorf("injected I/O error")
+	}
+	k := len(p)
+	if k > f.n {
+		k = f.n
+	}
+	if k > len(f.data) {
+		k = len(f.data)
+	}
+	copy(p, f.data[:k])
+	f.data = f.data[k:]
+	f.n -= k
+	if k == 0 {
+		return 0, fmt.Errorf("injected I/O error")
+	}
+	return k, nil
 }
 
 func hexs(s string) string { return fmt.Sprintf("%x", s) }
@@ -327,6 +357,28 @@ func checkReader(c Case, texts []string, v *vcase.Verdict) string {
 			if c.Mode != "reset" {
 				units = refbench.Units{} // a fresh Reader starts without unit metadata
 			}
+		} else if i < len(c.FailAfter) && c.FailAfter[i] != 0 {
+			// an input that ends in an I/O error: the reader must report it and must be
+			// usable again after the next Reset
+			var src io.Reader
+			bad := "cpu: x\n" + strings.Repeat("BenchmarkF 1 1 u\n", 40)
+			if c.FailAfter[i] < 0 {
+				src = strings.NewReader(bad + "BenchmarkLong 1 1 " + strings.Repeat("x", 70000) + "\n" + bad)
+			} else {
+				src = &failingReader{data: []byte(bad), n: c.FailAfter[i]}
+			}
+			r.Reset(src, fname)
+			n := 0
+			for r.Scan() {
+				if n++; n > 1000 {
+					return "reader produces records without end on a failing input"
+				}
+			}
+			if r.Err() == nil {
+				return "Err() is nil after the input failed with an I/O error"
+			}
+			v.Label("io_error_then_reset")
+			continue
 		} else {
 			r.Reset(strings.NewReader(text), fname, init...)
 		}
@@ -487,6 +539,15 @@ func Gen(t *rapid.T) Case {
 	maxLines := rapid.SampledFrom([]int{8, 20, 60}).Draw(t, "maxlines")
 	for i := 0; i < ntexts; i++ {
 		c.TextsHex = append(c.TextsHex, hexs(genbench.Text(t, maxLines, true)))
+	}
+	if c.Mode == "reset" && ntexts >= 2 && vcase.OneIn(t, 3, "ioerr") {
+		c.FailAfter = make([]int, ntexts)
+		// never the last input: something must be read after the failure; never the first
+		// (the first input is read by a fresh Reader in this harness)
+		if ntexts >= 3 {
+			i := rapid.IntRange(1, ntexts-2).Draw(t, "failidx")
+			c.FailAfter[i] = rapid.SampledFrom([]int{-1, 1, 10, 100, 300}).Draw(t, "failafter")
+		}
 	}
 	if c.Mode == "files" {
 		np := rapid.IntRange(1, 5).Draw(t, "npaths")
